@@ -13,33 +13,47 @@ CFG = {
             "1-30 garbage fragments, injected as bytes, sentinel appended; query cases: the real CursorPosition / reportWinsize / "
             "ClipboardPop against a console that answers or stays silent; race cases: CursorPosition against its 50 ms time-out with the "
             "input goroutine held at a yield point after it has taken the request flag (reply-first / timeout-first / recall); cquery "
-            "cases: the real QueryColor / QueryForeground / QueryBackground against replies of every XParseColor digit count, what "
-            "Sscanf also accepts, malformed bodies, other prefixes, optionally after an unsolicited reply; non-trivial = a "
-            "seq/end/query/race/cquery line, distinct by case ops",
+            "cases: the real QueryColor / QueryForeground / QueryBackground against replies of every XParseColor digit count per channel, what a "
+            "channel may also carry (blank, sign, 5+ digits, non-ASCII), trailing text, malformed bodies, other prefixes, optionally "
+            "after an unsolicited reply; suspend cases: Suspend()+Resume() with the input goroutine blocked on a full queue (1-3 slots) "
+            "and decoded sequences waiting in the parser's channel, the queue drained only afterwards, 40-80 keys typed after Resume; "
+            "non-trivial = a seq/end/query/race/cquery/suspend line, distinct by case ops",
     "trusted_base": ["decodeKey (C09) is an opaque oracle: key events are compared by the token the real decodeKey gives for the same sequence",
                      "base64.StdEncoding.DecodeString is a parameter of the model (value supplied by the harness)",
                      "the parsed sequences given to the model in stream cases come from a second real ansi.Parser run on the same bytes",
-                     "fmt.Sscanf / strconv.ParseInt are modelled only for the format shape of the three colour requesters (literal + %x/%x/%x into ints); "
-                     "the library itself is trusted, the model of it is validated by the cquery correspondence"],
+                     "strings.HasPrefix/TrimPrefix/Split and strconv.ParseUint(ch, 16, 16) as used by parseColorReply are modelled by list functions "
+                     "(matchLit, splitOn, hexNum); the libraries themselves are trusted, the model of the helper is validated by the cquery correspondence "
+                     "and its statement list is pinned (query_requesters_shape)",
+                     "the interpreter of the regenerated bodies (Model/InputBody.lean) gives the Go statement subset its meaning by hand: checked index "
+                     "expressions, short-circuit && / ||, 64-bit wrap of '-', '&' for masks < 256, log/mutex/yield-point calls without effect, "
+                     "EventType/modifier constants of key.go as in Model/Input.lean"],
     "assumptions": ["the application keeps receiving from Events() (PostEventBlocking blocks by design otherwise)",
                     "real time abstracted: time-outs are nondeterministic labels of the LTS",
                     "runes delivered by the parser are valid code points (string([]rune) is the identity)"],
-    "level_text": "Proved over the hand model of handleSequence/parseMouseEvent and the LTS of the input goroutine, event queue, reply "
-                  "channels and requesters: mouse_exact, handle_total, replies_internal, events_exact, never_wedges (unconditional: every "
-                  "reachable state, any requester activity), flow_preserved / input_never_lost (any schedule and queue capacity), "
-                  "input_never_lost_any_requester / input_never_lost_with_cpr (also with CursorPosition calls, answers and time-outs at any "
-                  "moment and CSI..R sequences anywhere in the stream: everything but the keys sharing that encoding is delivered exactly "
-                  "once, in order), flag_lowered_only_by, and for the colour requesters query_reply_parsed / exact_8bit / "
-                  "exact_16bit_repeated / rejected over a model of their Sscanf parse. Tied to the source by Gen/Caps.lean (switch "
-                  "skeleton, send kinds, guards, channel capacities, CursorPosition and Query* statement lists, the atomic take of the "
-                  "request flag) and by correspondence on direct, end-to-end, query, race (yield point) and colour-query cases.",
-    "level_note": "Proved: statements about the model for all sequences / all reachable LTS states / all reply texts of the stated shape. "
-                  "Validated by correspondence only: model = handleSequence (direct hook), = the whole pipeline (fake console -> parser -> "
-                  "input goroutine -> Events()), = the real requesters (CursorPosition incl. the three forced schedules, reportWinsize, "
-                  "ClipboardPop, QueryColor/Foreground/Background incl. the Sscanf model). False of the code and recorded: F303 (colour "
-                  "answers keep the low byte of each channel; Witness/F303). Modelled, not verified: real-time behaviour of time-outs; "
-                  "key decoding (C09); the parser (C02/C08); fmt/strconv outside the modelled format shape. By design, not judged: a "
-                  "CSI r;c R report is a reply or a key depending on the request flag (no query ids in DSR 6).",
-    "technique": "Lean 4 proof over an executable model + LTS invariants; go/ast extractor; differential harness with sentinel liveness",
+    "level_text": "Proved: (1) the bodies of handleSequence, parseMouseEvent and Resize, regenerated from the source on every run as terms of the "
+                  "GoBody statement language and EXECUTED by an interpreter, are the hand model for all decoders, states and sequences "
+                  "(handleSequence_body_eq_model, parseMouse_body_eq_model: same new state, same effects in order, each send written as the LTS "
+                  "assumes - blocking post / non-blocking post / select+default / select+time-out -, same early returns and breaks, a panic "
+                  "exactly where the model has one; bodies_fully_recognised, body_never_stuck, body_sends_never_bare; lts_input_is_body: the "
+                  ".input label of the LTS is a run of that body); (2) over that model and the LTS of the input goroutine, event queue, reply "
+                  "channels and requesters: mouse_exact, handle_total, replies_internal, events_exact, never_wedges, and for ALL runs never_stuck "
+                  "(an internal move is enabled whenever effects are pending, in every reachable state), internal_runs_terminate / "
+                  "every_internal_run_settles (every maximal internal schedule ends idle within 2*pending+queued moves), stream_reaches_end "
+                  "(every stream is consumed to its end from every reachable state), flow_preserved / input_never_lost / "
+                  "input_never_lost_any_requester / input_never_lost_with_cpr, flag_lowered_only_by; (3) for the colour requesters (F303 repaired) "
+                  "query_reply_exact: for every prefix and every 1-4 digit channel the answer is the XParseColor reading of the reply, "
+                  "query_reply_rejected / malformed. Tied to the source by Gen/InputBody.lean (the bodies), Gen/Caps.lean (switch skeleton, send "
+                  "kinds, guards, channel capacities, queue-size guard, CursorPosition / Query* / parseColorReply statement lists, the atomic take "
+                  "of the request flag) and by correspondence on direct, end-to-end, query, race (yield point), colour-query and suspend cases.",
+    "level_note": "Proved: statements about the interpreted bodies and the model for all sequences / all reachable LTS states / all runs / all "
+                  "replies. Validated by correspondence only: interpreter + model = the real handleSequence (direct hook), = the whole pipeline "
+                  "(fake console -> parser -> input goroutine -> Events()), = the real requesters (CursorPosition incl. the three forced "
+                  "schedules, reportWinsize, ClipboardPop, QueryColor/Foreground/Background incl. parseColorReply); Suspend/Resume with a "
+                  "blocked goroutine is judged by an oracle on the implementation only (no model of openTty's goroutine generations here - "
+                  "C10 owns it). Findings: F303 repaired this round (Witness/F303 keeps the refutation for the old Sscanf parse). Modelled, not "
+                  "verified: real-time behaviour of time-outs; key decoding (C09); the parser (C02/C08); the meaning the interpreter gives to "
+                  "the Go subset. By design, not judged: a CSI r;c R report is a reply or a key depending on the request flag (no query ids in DSR 6); "
+                  "DECRPM status 3 for modes 2026/2031.",
+    "technique": "Lean 4 proof: interpreter of the regenerated Go bodies = executable model, LTS invariants and a termination measure; go/ast extractor (statement language of C09/C13); differential harness with sentinel liveness and forced schedules",
     "timeout": 3000,
 }
